@@ -67,7 +67,9 @@ Definition ds_check (c : list Z * list Z) : bool :=
 (* (wire, what the harness' client reads from it) against the client of the specification *)
 Definition rc_check (c : list Z * option (list Z)) : bool := oeqb (receive (fst c)) (snd c).
 (* (payload, python end_multiline(payload)) *)
-Definition em_check (c : list Z * list Z) : bool := zl_eqb (end_multiline (fst c)) (snd c).
+Definition em_check (c : list Z * list Z) : bool :=
+  zl_eqb (Pop3M.end_multiline (fst c)) (snd c) &&
+  match Asimap.Gen.DotStuff.end_multiline (fst c) with Ok p => zl_eqb p (snd c) | Err _ => false end.
 Fixpoint bad_from {A} (f : A -> bool) (i : nat) (cs : list A) : list nat :=
   match cs with [] => [] | c :: r => if f c then bad_from f (S i) r else i :: bad_from f (S i) r end.
 """
@@ -825,7 +827,7 @@ def function_level(ctx, proof_ok):
                                  "python": None if g is None else g.decode("latin-1")})
     if ls[2]:
         p, wv = em_cases[ls[2][0]]
-        ctx.proof_broken.append({"what": "pop3_client.end_multiline differs from the model's", "payload": p.decode("latin-1"),
+        ctx.proof_broken.append({"what": "translator validation: pop3_client.end_multiline differs from Gen/DotStuff.v end_multiline (and the model's)", "payload": p.decode("latin-1"),
                                  "python": wv.decode("latin-1")})
     ctx.extra["function_level"] = {"byte_strings": len(datas), "end_multiline_in_source": has_em,
                                    "gen_vs_python_diffs": len(ls[0]), "client_vs_spec_diffs": len(ls[1])}
